@@ -57,6 +57,33 @@ def roundtrip_impl(delta_z, elements):
     return [str(e) for e in b.atom_type_elements]
 
 
+PRELUDE = [("Atoms", dict(elements=["C", "X", "O"], positions=[[0., 0, 0], [1., 0, 0], [2., 0, 0]])),
+           ("Atoms", dict(elements=["Q"], positions=[[0., 0, 0]])),
+           ("Atoms", dict(elements=["D", "H"], positions=[[0., 0, 0], [1., 0, 0]])),
+           ("Atoms", dict(elements=["1", "2"], positions=[[0., 0, 0], [1., 0, 0]])),
+           ("guess", dict(masses=[0.0], max_delta=0.1)),
+           ("guess", dict(masses=[400.0], max_delta=0.1))]
+
+
+def prelude():
+    """earlier activity in the same process: callers that use placeholder symbols or masses nothing matches.  Whatever these calls
+    do (most raise), the shared mass table that later guesses search must not change."""
+    from mofun import Atoms
+    from mofun.helpers import guess_elements_from_masses
+    outcome = []
+    for kind, kw in PRELUDE:
+        try:
+            with contextlib.redirect_stderr(io.StringIO()):
+                if kind == "Atoms":
+                    Atoms(**kw)
+                else:
+                    guess_elements_from_masses(kw["masses"], max_delta=kw["max_delta"])
+            outcome.append("ok")
+        except Exception as e:       # noqa
+            outcome.append(type(e).__name__)
+    return outcome
+
+
 def py_spec(table, delta_z, masses_z, g, load):
     """the property itself, on the implementation's output (mirror of Corr.C14.spec_ok)"""
     def none_within(m):
@@ -101,6 +128,9 @@ def gen_cases(run, table):
         lo, hi = by_mass[0][1], by_mass[-1][1]
         for m in [lo // 2, lo - delta - U, hi + delta + U, hi * 2, 2 * SCALE, 500 * SCALE]:
             cases.append((delta, [m], "non-atomic"))
+        for m in [U, delta // 2, delta - U, delta + U, 3 * delta]:
+            cases.append((delta, [m], "near-zero"))
+            cases.append((delta, [dict(table)["C"], m], "near-zero"))
         # multi-type files: all within / one outside (all-or-nothing), out-of-order neighbours
         names = dict(table)
         groups = [["C", "H", "O", "N"], ["Ar", "K"], ["Co", "Ni"], ["Te", "I"], ["Th", "Pa"], ["U", "Np"], ["Zr", "O", "C", "H"]]
@@ -156,6 +186,12 @@ def main(tier, seed, replay=None):
             cases.append((c["delta"], c["masses"], "corpus:" + name))
         if not replay:
             cases += gen_cases(run, table)
+        run.cov["prelude_outcomes"] = prelude()
+        from mofun.atomic_masses import ATOMIC_MASSES
+        live = {k: int(round(Fraction(repr(float(v))) * SCALE)) for k, v in ATOMIC_MASSES.items()}
+        if live != dict(table):
+            odd = sorted(set(live.items()) ^ set(table))[:6]
+            run.notes.append("the mass table in memory differs from the table in the source after the prelude: %s" % odd)
         lits = []
         kept = []
         skipped = 0
@@ -175,6 +211,7 @@ def main(tier, seed, replay=None):
             if not py_spec(table, delta, ms, g, load):
                 found_input = True
                 run.violation("failing-input", {"input": {"delta": delta, "masses": ms, "scale": SCALE},
+                                                "earlier_calls_in_the_same_process": [[k, kw] for k, kw in PRELUDE],
                                                 "observed": {"guess": g, "load_lmpdat_elements": load},
                                                 "expected": "nearest table element within delta for every mass, or type numbers for all",
                                                 "case_kind": kind})
